@@ -94,6 +94,12 @@ def dkim_case(rng, tier):
     hdrs = []
     for n in rng.sample(["Subject", "X-Custom", "Reply-To", "Cc", "X-Long", "List-Unsubscribe", "Message-ID"], rng.choice([0, 1, 2, 3])):
         hdrs += [n if rng.random() < 0.8 else anycase(rng, n), value(rng, tier)]
+    if rng.random() < 0.15:
+        # internationalised addresses (RFC 6531): the field carries UTF-8 octets that are not encoded
+        hdrs = [h for i, h in enumerate(hdrs) if not (hdrs[i - i % 2].lower() == "cc")]
+        hdrs += ["Cc", rng.choice(["zoë@example.org", "Zoë <zoë@exämple.org>, üser@example.com", "用户@例え.jp", "a@b.c, \"q é\" <é@x.y>"])]
+        if rng.random() < 0.7:
+            names = names + ["Cc"]
     if rng.random() < 0.08:
         # a field of the same name at message level and in the MIME part's header block
         hdrs += [rng.choice(["Content-Type", "Content-Transfer-Encoding"]), rng.choice(["text/plain", "7bit", "text/x-other; a=b"])]
